@@ -15,6 +15,7 @@ class RequestResponseRequester(StreamHandler, Requester):
         super().__init__(socket)
         self._payload = payload
         self._future = create_future()
+        self._response_received = False
 
     def setup(self):
         self._future.add_done_callback(self._on_future_complete)
@@ -28,10 +29,18 @@ class RequestResponseRequester(StreamHandler, Requester):
 
     def frame_received(self, frame: Frame):
         if isinstance(frame, PayloadFrame):
-            self._future.set_result(payload_from_frame(frame))
+            self._response_received = True
+
+            if not self._future.done():  # the caller may have cancelled while the response was in flight
+                self._future.set_result(payload_from_frame(frame))
+
             self._finish_stream()
         elif isinstance(frame, ErrorFrame):
-            self._future.set_exception(error_frame_to_exception(frame))
+            self._response_received = True
+
+            if not self._future.done():
+                self._future.set_exception(error_frame_to_exception(frame))
+
             self._finish_stream()
 
     def _on_future_complete(self, future: asyncio.Future):
@@ -39,5 +48,7 @@ class RequestResponseRequester(StreamHandler, Requester):
             self.cancel()
 
     def cancel(self):
-        self.send_cancel()
+        if not self._response_received:
+            self.send_cancel()
+
         self._finish_stream()
